@@ -12,7 +12,8 @@ checks, na, engines = [], [], {}
 for p in props:
     pid = p["id"]
     f = V / "manifest.d" / f"{pid}.json"
-    if not f.exists():
+    enabled = (V / "manifest.d" / "ENABLED").read_text().split()
+    if not f.exists() or pid not in enabled:
         na.append({"property_id": pid, "reason": na_reasons.get(pid, na_reasons["default"])})
         continue
     frag = json.loads(f.read_text())
@@ -50,12 +51,22 @@ m = {
 (V / "MANIFEST.json").write_text(json.dumps(m, indent=1) + "\n")
 print(f"MANIFEST.json: {len(checks)} checks, {len(na)} not_applicable")
 
-# merge findings.d/*.json into known_findings.json (entries keyed by id; known_findings.json entries win)
-kf = json.loads((V / "known_findings.json").read_text())
-have = {f["id"] for f in kf["findings"]}
+# known_findings.json is generated from findings.d/*.json; fixes/APPLIED.json maps finding ids to the
+# /repo commit that repaired them (such entries become status=fixed and suppress nothing)
+applied = json.loads((V / "fixes" / "APPLIED.json").read_text())
+out, have = [], set()
 for f in sorted((V / "findings.d").glob("*.json")):
     for e in json.loads(f.read_text()):
-        if e["id"] not in have:
-            kf["findings"].append(e); have.add(e["id"])
-(V / "known_findings.json").write_text(json.dumps(kf, indent=1) + "\n")
-print(f"known_findings.json: {len(kf['findings'])} entries")
+        if e["id"] in have:
+            continue
+        have.add(e["id"])
+        if e["id"] in applied and e.get("status") != "fixed":
+            e = dict(e, status="fixed", commit=applied[e["id"]],
+                     line=f"fixed: property={e['property']} {applied[e['id']]} {e['description']}")
+        out.append(e)
+kf = {"_comment": "Genuine defects of pallets/jinja found by the checks (generated from findings.d/ by tools/mkmanifest.py). "
+                  "status=open entries suppress exactly the violations whose fingerprint they match (printed as KNOWN-FINDING); "
+                  "status=fixed entries suppress nothing. Never written at run time.",
+      "findings": out}
+(V / "known_findings.json").write_text(json.dumps(kf, indent=1, ensure_ascii=False) + "\n")
+print(f"known_findings.json: {len(out)} entries, {sum(1 for e in out if e['status'] == 'open')} open")
